@@ -121,6 +121,7 @@ func (s *stream) put(event *Event) uint64 {
 			s.streamer.makeCharged(s)
 		}
 		s.cond.Signal()
+		verifhook.Point("stream.put.signaled")
 	} else {
 		s.last.next = event
 		s.last = event
